@@ -150,7 +150,11 @@ func waitShrinkDone(c *respc.Conn, prev int, timeout time.Duration) error {
 			return err
 		}
 		if st["shrink.afterRemoveBak"].arrivals > prev {
-			return nil
+			// the last point is passed before the rewrite clears its in-progress flag, and a request
+			// made in between is silently dropped: wait for the flag too
+			if rep, err := c.Do("INFO", "persistence"); err != nil || !strings.Contains(rep.String(), "aof_rewrite_in_progress:1") {
+				return nil
+			}
 		}
 		time.Sleep(5 * time.Millisecond)
 	}
